@@ -364,6 +364,9 @@ class Ctx:
     def finish(self):
         os.makedirs(EVID, exist_ok=True)
         os.makedirs(REPLAYS, exist_ok=True)
+        import glob as _glob
+        for old in _glob.glob(os.path.join(REPLAYS, self.pid + "_*.json")):
+            os.remove(old)
         lines = []
         known_open = {k["key"]: k for k in self.known if k.get("status") == "open"}
         unlisted = []
